@@ -80,6 +80,10 @@ var zzCancelWrappers = []struct{ name, pre, post string }{
 	{"none", "", ""},
 	{"try-catch", "try { ", " } catch e { p(98) }"},
 	{"try-catch-finally", "try { ", " } catch e { p(98) } finally { p(97) }"},
+	{"try-empty-catch", "try { ", " } catch e { }"},
+	{"try-call-empty-catch", "try { func() { ", " }() } catch e { }"},
+	{"try-call-empty-catch-empty-finally", "try { func() { ", " }() } catch e { } finally { }"},
+	{"if-call-in-condition", "if (func() { ", " }()) { }"},
 	{"nil-coalesce-left", "x = (func() { ", " }()) ?? 1"},
 	{"nil-coalesce-in-list", "x = [(func() { ", " }()) ?? 1, p(99)]"},
 	{"nil-coalesce-in-call", "p((func() { ", " }()) ?? 99)"},
@@ -118,6 +122,7 @@ func zzCancelRun(core, wrapper, cancelAt int, blocking bool) {
 		id += "/last-statement"
 	}
 	zz.UnwindIsViolation("terminates.C02/" + id)
+	zz.DeadlockIsViolation("terminates.C02/" + id)
 	_, err := ExecuteContext(ctx, e, &Options{Debug: false}, src)
 	zz.Assert(ctx.closed, "C02.cancellation-was-delivered/"+id)
 	zz.Assert(err != nil && err.Error() == ErrInterrupt.Error(), "C02.returns-execution-interrupted/"+id)
